@@ -116,6 +116,14 @@ func deviceCert(pub crypto.PublicKey, kind string) *x509.Certificate {
 		tmpl.NotBefore, tmpl.NotAfter = time.Now().Add(-2*time.Hour), time.Now().Add(-time.Hour)
 	case "notyet":
 		tmpl.NotBefore, tmpl.NotAfter = time.Now().Add(time.Hour), time.Now().Add(2*time.Hour)
+	case "forgedroot", "forgedrootkey":
+		// same issuer name and serial as the genuine device certificate, but issued by a
+		// throw-away CA that merely carries the root's name
+		k, _ := ecdsa.GenerateKey(elliptic.P256(), rand.Reader)
+		fake := &x509.Certificate{SerialNumber: big.NewInt(1), Subject: p.root.Subject, NotBefore: time.Now().Add(-time.Hour),
+			NotAfter: time.Now().Add(24 * time.Hour), IsCA: true, BasicConstraintsValid: true, KeyUsage: x509.KeyUsageCertSign,
+			SubjectKeyId: p.root.SubjectKeyId}
+		parent, signer = fake, k
 	case "selfsigned":
 		// signed by a throw-away key under its own name
 		k, _ := ecdsa.GenerateKey(elliptic.P256(), rand.Reader)
@@ -139,6 +147,7 @@ func deviceCert(pub crypto.PublicKey, kind string) *x509.Certificate {
 }
 
 var certCache = map[string]*x509.Certificate{}
+var theAttestor *yubiattest.Attestor
 
 func parseKey(s string) crypto.PublicKey {
 	switch {
@@ -182,7 +191,12 @@ func runAttest(args []string) []string {
 		certCache[ck] = f9
 	}
 	att := &x509.Certificate{SignatureAlgorithm: x509.SignatureAlgorithm(algo), RawTBSCertificate: tbs, Signature: sig}
-	a := yubiattest.NewAttestorWithCAPool(getPKI().pool)
+	// one attestor for the whole run, as in the RA (it is built once from the configured pool):
+	// what it did for earlier pairs must not change its verdict on this one
+	if theAttestor == nil {
+		theAttestor = yubiattest.NewAttestorWithCAPool(getPKI().pool)
+	}
+	a := theAttestor
 	if err := a.Attest(f9, att); err != nil {
 		return []string{"reject"}
 	}
@@ -289,9 +303,12 @@ func genAttest(g *hx.Gen, out *hx.Out) {
 			}
 		}
 		// every relation of the device certificate to the pool, with a good signature
-		for _, kind := range []string{"root", "otherca", "selfsigned", "expired", "notyet"} {
+		for _, kind := range []string{"root", "otherca", "selfsigned", "expired", "notyet", "forgedroot"} {
 			emit(kind, 4, tbs, sign(canonEM(k, prefixes1[5], digestOf(5, tbs))), keyS)
 		}
+		// after the genuine pair was accepted: the same issuer name and serial over another device
+		// key, under a forged issuer, with a signature that is good under that other key
+		emit("root", 4, tbs, sign(canonEM(k, prefixes1[5], digestOf(5, tbs))), keyS)
 		// every algorithm label 0..17 with a SHA-256 style message
 		for algo := 0; algo <= 17; algo++ {
 			emit("root", algo, tbs, sign(canonEM(k, prefixes1[5], digestOf(5, tbs))), keyS)
